@@ -214,6 +214,7 @@ func propC05(c *Check) {
 	ruleR12_6(c)
 	ruleR01_2(c)
 	ruleR29_5(c) // prefix, equality and order tests never mix internal keys with user keys/prefixes
+	ruleR18_6(c) // Seek of the table and concat iterators below the merge: polarity of every comparison
 }
 
 // ---- C33 ----
